@@ -1213,3 +1213,130 @@ Section IppLoopsEnd.
     - apply IH; [exact P2|]. destruct (P3 eq_refl) as [Q _]. unfold ileft, dwf in *. rewrite P1, A in *. lia.
   Qed.
 End IppLoopsEnd.
+
+(* ------------------------------------------------------------------ *)
+(* the datagram read loop of the relaying services *)
+
+Lemma dg_read_cons_data s r k d e c' :
+  dg_read (s :: r) k = (d, e, c') ->
+  e = false /\ d ++ concat c' = s ++ concat r /\ (length d <= k)%nat /\ (length c' <= S (length r))%nat.
+Proof.
+  unfold dg_read; intros H; inversion H; subst; clear H.
+  pose proof (firstn_skipn k s) as Hs.
+  pose proof (firstn_le_length k s) as Hl.
+  assert (Hk : (length (firstn k s) <= k)%nat) by (rewrite firstn_length; lia).
+  destruct (skipn k s) as [|x rest] eqn:E.
+  - rewrite app_nil_r in Hs. repeat split; try lia. now rewrite Hs.
+  - repeat split; try (cbn [length]; lia).
+    cbn [concat]. rewrite app_assoc, Hs. reflexivity.
+Qed.
+
+Lemma dg_read_cons_progress s r k d e c' :
+  dg_read (s :: r) k = (d, e, c') -> (1 <= k)%nat ->
+  (dg_weight c' < dg_weight (s :: r))%nat /\ ((1 <= length d)%nat \/ c' = r).
+Proof.
+  unfold dg_read; intros H Hk; inversion H; subst; clear H.
+  pose proof (firstn_skipn k s) as Hs.
+  apply (f_equal (@length N)) in Hs. rewrite app_length in Hs.
+  unfold dg_weight. cbn [concat length]. rewrite app_length.
+  destruct s as [|x s'].
+  - rewrite skipn_nil. split; [lia|now right].
+  - assert (Hd : (1 <= length (firstn k (x :: s')))%nat).
+    { rewrite firstn_length; cbn [length]; lia. }
+    destruct (skipn k (x :: s')) as [|y rest] eqn:E.
+    + cbn [length] in *. split; [lia|now left].
+    + cbn [concat length] in *. rewrite app_length. cbn [length] in *. split; [lia|now left].
+Qed.
+
+(* the loop as it stands: it ends, with the first min(l, b) bytes, after at most
+   (bytes + pieces pending) + 1 and at most (room left in the buffer + pieces pending) + 1 Reads *)
+Lemma dg_loop_bounded_ends : forall fuel b acc c reads,
+  (length acc <= b)%nat ->
+  (dg_weight c + 2 <= fuel)%nat ->
+  exists r, dg_loop true fuel b acc c reads = Some (firstn b (acc ++ concat c), r) /\
+            (reads <= r)%nat /\ (r <= reads + dg_weight c + 1)%nat /\
+            (r <= reads + (b - length acc) + length c + 1)%nat.
+Proof.
+  induction fuel as [|f IH]; intros b acc c reads Ha Hf; [lia|].
+  cbn [dg_loop andb].
+  destruct (Nat.ltb_spec (length acc) b) as [Hlt|Hge]; cbn [negb].
+  - destruct c as [|s r0].
+    + assert (Hk : exists k', (b - length acc = S k')%nat) by (exists (b - length acc - 1)%nat; lia).
+      destruct Hk as [k' Hk]. unfold dg_read. rewrite Hk.
+      exists (S reads). cbn [concat]. rewrite !app_nil_r.
+      rewrite firstn_all2 by lia. unfold dg_weight; cbn [concat length]. repeat split; lia.
+    + destruct (dg_read (s :: r0) (b - length acc)) as [[d e] c'] eqn:E.
+      destruct (dg_read_cons_data _ _ _ _ _ _ E) as (He & Hd & Hlen & Hc).
+      destruct (dg_read_cons_progress _ _ _ _ _ _ E) as (Hw & Hp); [lia|].
+      subst e.
+      destruct (IH b (acc ++ d) c' (S reads)) as (r & Hr & H1 & H2 & H3).
+      * rewrite app_length; lia.
+      * lia.
+      * exists r. rewrite Hr. cbn [concat]. rewrite <- app_assoc, Hd.
+        split; [reflexivity|]. rewrite app_length in H3.
+        repeat split; try lia.
+        cbn [length]. destruct Hp as [Hp|Hp]; [lia|subst c'; lia].
+  - exists reads. assert (length acc = b) by lia. subst b.
+    rewrite firstn_app, Nat.sub_diag, firstn_O, app_nil_r, firstn_all.
+    repeat split; lia.
+Qed.
+
+(* one datagram straight from listener.DummyUDPConn: exactly one Read when it fills the
+   buffer (or is cut to it), two otherwise (the second one reports the end) *)
+Lemma dg_loop_one_datagram : forall b d f,
+  (1 <= b)%nat ->
+  dg_loop true (S (S f)) b [] (dg_of d) 0 =
+  Some (firstn b d, match d with [] => 1 | _ => if (length d <? b)%nat then 2 else 1 end)%nat.
+Proof.
+  intros b d f Hb.
+  destruct d as [|x d'].
+  - cbn [dg_of dg_loop length andb]. destruct (Nat.ltb_spec 0 b); [|lia]. cbn [negb].
+    rewrite Nat.sub_0_r. destruct b; [lia|]. reflexivity.
+  - cbn [dg_of]. remember (x :: d') as d eqn:Ed.
+    cbn [dg_loop length andb]. destruct (Nat.ltb_spec 0 b); [|lia]. cbn [negb].
+    rewrite Nat.sub_0_r. unfold dg_read at 1. cbn [app].
+    pose proof (firstn_skipn b d) as Hs.
+    destruct (Nat.ltb_spec (length d) b) as [Hlt|Hge].
+    + rewrite skipn_all2 by lia. rewrite firstn_all2 by lia.
+      destruct (Nat.ltb_spec (length d) b); [|lia]. cbn [negb andb].
+      assert (Hk : exists k', (b - length d = S k')%nat) by (exists (b - length d - 1)%nat; lia).
+      destruct Hk as [k' Hk]. unfold dg_read. rewrite Hk. rewrite app_nil_r.
+      subst d; reflexivity.
+    + assert (Hl : length (firstn b d) = b) by (rewrite firstn_length; lia).
+      destruct (skipn b d); rewrite Hl, Nat.ltb_irrefl; cbn [negb andb]; subst d; reflexivity.
+Qed.
+
+(* without the loop condition: once the buffer is full every further Read is one into an
+   empty slice, answered (0, nil) - the loop never sees an error *)
+Lemma dg_loop_bare_spins : forall fuel b acc c reads,
+  (length acc <= b)%nat -> (b <= length acc + length (concat c))%nat ->
+  dg_loop false fuel b acc c reads = None.
+Proof.
+  induction fuel as [|f IH]; intros b acc c reads Ha Hb; [reflexivity|].
+  cbn [dg_loop andb].
+  destruct c as [|s r0].
+  - cbn [concat length] in Hb. assert (Hk : (b - length acc = 0)%nat) by lia.
+    rewrite Hk. cbn [dg_read]. apply IH; rewrite app_nil_r; cbn [concat length]; lia.
+  - destruct (dg_read (s :: r0) (b - length acc)) as [[d e] c'] eqn:E.
+    destruct (dg_read_cons_data _ _ _ _ _ _ E) as (He & Hd & Hlen & Hc). subst e.
+    apply IH.
+    + rewrite app_length; lia.
+    + cbn [concat] in Hb. rewrite <- Hd in Hb. rewrite !app_length in *. lia.
+Qed.
+
+(* ... and below the fill it is the same loop *)
+Lemma dg_loop_bare_same : forall fuel b acc c reads,
+  (length acc + length (concat c) < b)%nat ->
+  dg_loop false fuel b acc c reads = dg_loop true fuel b acc c reads.
+Proof.
+  induction fuel as [|f IH]; intros b acc c reads H; [reflexivity|].
+  cbn [dg_loop andb].
+  destruct (Nat.ltb_spec (length acc) b) as [Hlt|Hge]; [|lia]. cbn [negb].
+  destruct c as [|s r0].
+  - destruct (dg_read [] (b - length acc)) as [[d e] c'] eqn:E.
+    unfold dg_read in E. destruct (b - length acc)%nat eqn:Ek; [lia|].
+    inversion E; subst. reflexivity.
+  - destruct (dg_read (s :: r0) (b - length acc)) as [[d e] c'] eqn:E.
+    destruct (dg_read_cons_data _ _ _ _ _ _ E) as (He & Hd & Hlen & Hc). subst e.
+    apply IH. cbn [concat] in H. rewrite <- Hd in H. rewrite !app_length in *. lia.
+Qed.
